@@ -215,7 +215,14 @@ func execFork(p *Process, argv []string) error {
 	}*/
 
 	err := cmd.Wait()
-	if err != nil && !strings.HasPrefix(err.Error(), "signal:") && err.Error() != "wait: no child processes" {
+	if err != nil && strings.HasPrefix(err.Error(), "signal:") {
+		// The command was terminated by a signal (killed, segfault, ctrl+c...).
+		// No error is raised, as before, but it must not look successful:
+		// `try`, `&&` and `||` act on the exit number.
+		p.ExitNum = signalExitNum(cmd.ProcessState)
+		return nil
+	}
+	if err != nil && err.Error() != "wait: no child processes" {
 		//mxdtR.Close()
 		debug.Log(err)
 		return err
